@@ -69,6 +69,8 @@ class CallMixin:
         if k == 'cleanupfn':
             ev = self.emit(st, 'CLEANUP', node, val=args[0] if args else unk(), inst=fv.a[0])
             return [(NONE, st)]
+        if k == 'bound' and fv.a[0].k == 'pathobj':
+            return self.call_pathobj(fv.a[0], fv.a[1], args, kwargs, node, st)
         if k == 'bound':
             recv, name = fv.a
             if recv.k == 'cursor' and name in ('fetchall', 'fetchone'):
@@ -87,6 +89,14 @@ class CallMixin:
             return self.after_call(ev, res)
         if k == 'extfn':
             name = fv.a[0]
+            # pathlib objects are transparent wrappers of the path they denote
+            args = [a.a[0] if a.k == 'pathobj' else a for a in args]
+            kwargs = {kk: (vv.a[0] if vv.k == 'pathobj' else vv) for kk, vv in kwargs.items()}
+            if name in ('pathlib.Path', 'pathlib.PurePath', 'pathlib.PosixPath', 'pathlib.PurePosixPath'):
+                if len(args) == 1:
+                    return [(V('pathobj', args[0]), st)]
+                ev = self.emit(st, 'EXT', node, name='os.path.join', args=args, kwargs={})
+                return [(V('pathobj', V('ext', 'os.path.join', ev.seq)), st)]
             if name == 'time.time':
                 ev = self.emit(st, 'EXT', node, name=name, args=args, kwargs=kwargs)
                 return [(V('now', ev.seq), st)]
@@ -109,7 +119,46 @@ class CallMixin:
         res = [(V('ucall', ev.seq), st)]
         return self.after_call(ev, res)
 
+    PATH_METHODS = {'exists': 'os.path.exists', 'is_dir': 'os.path.isdir', 'is_file': 'os.path.isfile',
+                    'unlink': 'os.remove', 'rmdir': 'os.rmdir', 'resolve': 'os.path.realpath',
+                    'absolute': 'os.path.abspath', 'expanduser': 'os.path.expanduser', 'iterdir': 'os.listdir',
+                    'touch': 'builtins.open'}
+
+    def call_pathobj(self, recv, name, args, kwargs, node, st):
+        """A method of a pathlib.Path value: emitted as the os / os.path / builtins call it stands for."""
+        inner = recv.a[0]
+        args = [a.a[0] if a.k == 'pathobj' else a for a in args]
+        if name == 'joinpath':
+            ev = self.emit(st, 'EXT', node, name='os.path.join', args=[inner] + args, kwargs={})
+            return [(V('pathobj', V('ext', 'os.path.join', ev.seq)), st)]
+        if name == 'open':
+            ev = self.emit(st, 'EXT', node, name='builtins.open', args=[inner] + args, kwargs=kwargs)
+            return self.after_call(ev, [(V('ext', 'builtins.open', ev.seq), st)])
+        if name == 'mkdir':
+            parents = kwargs.get('parents')
+            full = 'os.makedirs' if parents is not None and parents.is_const and parents.val else 'os.mkdir'
+            ev = self.emit(st, 'EXT', node, name=full, args=[inner], kwargs={k: v for k, v in kwargs.items()
+                                                                            if k in ('exist_ok', 'mode')})
+            return self.after_call(ev, [(V('ext', full, ev.seq), st)])
+        if name in self.PATH_METHODS:
+            full = self.PATH_METHODS[name]
+            ev = self.emit(st, 'EXT', node, name=full, args=[inner], kwargs={})
+            res = V('ext', full, ev.seq)
+            if name in ('resolve', 'absolute', 'expanduser'):
+                res = V('pathobj', res)
+            out = self.after_call(ev, [(res, st)])
+            mo = kwargs.get('missing_ok')
+            if name == 'unlink' and mo is not None and mo.is_const and mo.val:
+                out = [(v, s) for v, s in out if not (isinstance(v, Raise) and v.typ in ('FileNotFoundError',))]
+            return out
+        ev = self.emit(st, 'MCALL', node, name=name, recv=recv, args=args, kwargs=kwargs)
+        return self.after_call(ev, [(V('mcall', name, ev.seq), st)])
+
     def call_builtin(self, name, args, kwargs, node, st):
+        if any(a.k == 'pathobj' for a in args) and name in ('str', 'open', 'repr'):
+            args = [a.a[0] if a.k == 'pathobj' else a for a in args]
+            if name == 'str':
+                return [(args[0], st)]
         if name == 'len' and args:
             a = args[0]
             if a.k in ('tuple', 'list'):
